@@ -89,6 +89,19 @@ def patched(patches):
 _MISSING = object()
 
 
+class SBR(SB):
+    """symbolic bool that also carries a 'violated with a margin' formula"""
+    __slots__ = ("robust_neg",)
+
+    def __init__(self, t):
+        SB.__init__(self, t)
+        self.robust_neg = None
+
+
+def _zabs(t):
+    return z3.If(t >= 0, t, -t)
+
+
 class SkipSample(Exception):
     """a float/const sample does not satisfy the case's assumptions"""
 
@@ -173,7 +186,10 @@ class M:
         a = np.asarray(a, dtype=object); b = np.asarray(b, dtype=object)
         if a.shape != b.shape:
             a, b = np.broadcast_arrays(a, b)
-        return SB(z3.And([lift(x) == lift(y) for x, y in zip(a.ravel(), b.ravel())]))
+        g = SBR(z3.And([lift(x) == lift(y) for x, y in zip(a.ravel(), b.ravel())]))
+        # "violated with a margin" (used only to pick a well-separated model for the replay)
+        g.robust_neg = z3.Or([_zabs(lift(x) - lift(y)) > z3.RealVal("1/100") * (1 + _zabs(lift(y))) for x, y in zip(a.ravel(), b.ravel())])
+        return g
 
     def le(self, a, b, slack=0.0):
         """a <= b (+ slack only in float mode)"""
@@ -183,7 +199,9 @@ class M:
             return bool(np.all(a <= b + self.tol * scale + slack))
         a = np.asarray(a, dtype=object); b = np.asarray(b, dtype=object)
         a, b = np.broadcast_arrays(a, b)
-        return SB(z3.And([lift(x) <= lift(y) for x, y in zip(a.ravel(), b.ravel())]))
+        g = SBR(z3.And([lift(x) <= lift(y) for x, y in zip(a.ravel(), b.ravel())]))
+        g.robust_neg = z3.Or([lift(x) > lift(y) + z3.RealVal("1/20") * (1 + _zabs(lift(y))) for x, y in zip(a.ravel(), b.ravel())])
+        return g
 
     def conj(self, *gs):
         if self.mode == "float":
@@ -193,7 +211,10 @@ class M:
     def implies(self, h, g):
         if self.mode == "float":
             return (not bool(h)) or bool(g)
-        return SB(z3.Implies(symnp._tob(h), symnp._tob(g)))
+        r = SBR(z3.Implies(symnp._tob(h), symnp._tob(g)))
+        if getattr(g, "robust_neg", None) is not None:
+            r.robust_neg = z3.And(symnp._tob(h), g.robust_neg)
+        return r
 
 
 def _jsonable(v):
@@ -304,7 +325,18 @@ def run_case(prop_id, name, body, kwargs, patches, *, timeout_ms=30000, max_path
                         res["unsat"] += 1
                     elif verdict == "sat":
                         res["sat"] += 1
-                        res["violations"].append(dict(label=label, values=_jsonable(model_to_values(model, m.inputs))))
+                        vio = dict(label=label, values=_jsonable(model_to_values(model, m.inputs)))
+                        rn = getattr(g, "robust_neg", None)
+                        if rn is not None:
+                            # a second, well-scaled and well-separated model gives the replay (float64, real solvers) a fair chance
+                            nice = []
+                            for a_ in m.inputs.values():
+                                for t_ in symnp.terms(a_):
+                                    nice.append(z3.And(t_ >= -20, t_ <= 20))
+                            v2, model2 = eng.solve(hyps + [rn] + nice, timeout_ms=15000, pc_upto=gopts.get("pc_upto"))
+                            if v2 == "sat":
+                                vio["alt_values"] = _jsonable(model_to_values(model2, m.inputs))
+                        res["violations"].append(vio)
                     else:
                         res["unknown"] += 1
                         res["inconclusive"].append(dict(label=label, why="solver returned unknown"))
@@ -370,6 +402,7 @@ def validate_case(body, kwargs, patches, n=2, seed=0, timeout_ms=30000):
                 info["mismatch"].append(dict(kind="float-goal", label=label, values=_jsonable(values)))
         # const run (patched)
         eng = Engine(timeout_ms=timeout_ms, max_paths=500)
+        eng.const_mode = True
         cexc = None
         cobs = {}
         try:
